@@ -1,5 +1,165 @@
-use crate::util::{Args, Report};
-pub fn run(_a: &Args, _r: &mut Report) {
-    eprintln!("not implemented yet");
-    std::process::exit(2);
+//! C04 — global (even/odd) CPR decoding.
+use crate::oracle::{cpr, frames, geo};
+use crate::util::{guarded, msg_class, short_loc, Args, Report, Rng};
+use rs1090::decode::bds::bds05::AirbornePosition;
+use rs1090::decode::cpr::airborne_position;
+use serde_json::json;
+
+pub fn airborne_msg(yz: u32, xz: u32, odd: bool) -> AirbornePosition {
+    let me = frames::me_airborne(11, 0, 0, frames::ac12_from_n(1400), 0, odd as u8, yz, xz);
+    AirbornePosition::try_from(&me[..]).expect("harness: airborne ME must parse")
+}
+
+struct Ctx<'a> {
+    r: &'a mut Report,
+    tr: Vec<f64>,
+    nl_seen: [[u64; 60]; 2],
+    some: u64,
+    none_justified: u64,
+    edge_skipped: u64,
+    max_err: f64,
+}
+
+fn one(c: &mut Ctx, lat: f64, lon: f64, class: &'static str) {
+    let e = cpr::encode(lat, lon, 0, false);
+    let o = cpr::encode(lat, lon, 1, false);
+    let me = airborne_msg(e.yz, e.xz, false);
+    let mo = airborne_msg(o.yz, o.xz, true);
+    let near_edge = geo::dist_to_transition(e.rlat, &c.tr) < 1e-7 || geo::dist_to_transition(o.rlat, &c.tr) < 1e-7;
+    let same_band = e.nl_rlat == o.nl_rlat;
+    let hemi = if lat < 0.0 { 1 } else { 0 };
+    c.nl_seen[hemi][e.nl_rlat as usize] += 1;
+    for (first, second, order) in [(&me, &mo, "even,odd"), (&mo, &me, "odd,even")] {
+        c.r.evaluations += 1;
+        let res = guarded(|| airborne_position(first, second));
+        let rp = || json!({"lat": lat, "lon": lon, "order": order, "even": [e.yz, e.xz], "odd": [o.yz, o.xz]});
+        match res {
+            Err((loc, msg)) => c.r.violation(&format!("C04:panic:{}", short_loc(&loc)), format!("airborne_position panicked for ({lat},{lon}) {order}: {}", msg_class(&msg)), rp()),
+            Ok(None) => {
+                if near_edge {
+                    c.edge_skipped += 1;
+                } else if same_band {
+                    c.r.violation("C04:none-unjustified", format!("({lat},{lon}) {order}: no position although both recovered latitudes ({}, {}) are in NL band {}", e.rlat, o.rlat, e.nl_rlat), rp());
+                } else {
+                    c.none_justified += 1;
+                }
+            }
+            Ok(Some(p)) => {
+                c.some += 1;
+                if !(p.latitude >= -90.0 && p.latitude <= 90.0) {
+                    c.r.violation("C04:lat-range", format!("({lat},{lon}) {order}: latitude {} outside [-90,90]", p.latitude), rp());
+                    continue;
+                }
+                if !(p.longitude >= -180.0 && p.longitude < 180.0) {
+                    c.r.violation("C04:lon-range", format!("({lat},{lon}) {order}: longitude {} outside [-180,180)", p.longitude), rp());
+                    continue;
+                }
+                let d = geo::dist_m(lat, lon, p.latitude, p.longitude);
+                if d > 10.0 {
+                    if near_edge && !same_band {
+                        c.edge_skipped += 1;
+                        continue;
+                    }
+                    let sig = if d > 1000.0 { "C04:wrong-position" } else { "C04:accuracy>10m" };
+                    c.r.violation(sig, format!("({lat},{lon}) {order}: decoded ({}, {}) is {:.1} m away", p.latitude, p.longitude, d), rp());
+                } else {
+                    if d > c.max_err {
+                        c.max_err = d;
+                    }
+                    c.r.distinct(((e.yz as u64) << 47) ^ ((e.xz as u64) << 30) ^ ((o.yz as u64) << 13) ^ (o.xz as u64) ^ ((order.len() as u64) << 62));
+                }
+            }
+        }
+    }
+    // same parity never yields a position
+    c.r.evaluations += 1;
+    for (a, b, w) in [(&me, &me, "even,even"), (&mo, &mo, "odd,odd")] {
+        if let Ok(Some(p)) = guarded(|| airborne_position(a, b)) {
+            c.r.violation("C04:same-parity-some", format!("({lat},{lon}) {w}: same-parity pair gave ({}, {})", p.latitude, p.longitude), json!({"lat": lat, "lon": lon, "order": w}));
+        }
+    }
+    c.r.class(class);
+}
+
+pub fn run(a: &Args, r: &mut Report) {
+    r.rule = "true point -> independent encoder (even and odd) -> real airborne_position in both orders + same-parity pairs. Points: area-uniform, latitude-uniform, dense +-0.01 deg sweeps of all 58 NL transition latitudes in both hemispheres, multiples of 6 and 360/59 deg, poles, equator, lon 0 / -180 / just below 180. distinct = distinct (even,odd,order) code tuples decoded within 10 m".into();
+    r.assumptions.push("samples whose recovered latitude lies within 1e-7 deg of an NL transition are not judged for the None/Some clause (table vs closed-form NL rounding)".into());
+    let tr = geo::transitions();
+    let mut c = Ctx { r, tr: tr.clone(), nl_seen: [[0; 60]; 2], some: 0, none_justified: 0, edge_skipped: 0, max_err: 0.0 };
+    if let Some(p) = &a.replay {
+        let v: serde_json::Value = serde_json::from_str(&std::fs::read_to_string(p).unwrap()).unwrap();
+        one(&mut c, v["replay"]["lat"].as_f64().unwrap(), v["replay"]["lon"].as_f64().unwrap(), "replay");
+        return;
+    }
+    let mut rng = Rng::new(a.seed, a.shard, "C04");
+    let n = a.budget(1_600_000, 400_000_000);
+    for i in 0..n {
+        match i % 4 {
+            0 => {
+                let lat = (rng.uni(-1.0, 1.0)).asin().to_degrees();
+                one(&mut c, lat, rng.uni(-180.0, 180.0), "area-uniform");
+            }
+            1 => one(&mut c, rng.uni(-90.0, 90.0), rng.uni(-180.0, 180.0), "lat-uniform"),
+            2 => {
+                // dense sweep around a transition
+                let t = tr[rng.below(tr.len() as u64) as usize];
+                let s = if rng.chance(0.5) { 1.0 } else { -1.0 };
+                let w = if rng.chance(0.5) { 0.01 } else { 0.0002 };
+                one(&mut c, (s * (t + rng.uni(-w, w))).clamp(-90.0, 90.0), rng.uni(-180.0, 180.0), "nl-transition+-0.01deg");
+            }
+            _ => {
+                let lat = match rng.below(6) {
+                    0 => 6.0 * rng.range(-15, 15) as f64 + rng.uni(-1e-4, 1e-4),
+                    1 => (360.0 / 59.0) * rng.range(-14, 14) as f64 + rng.uni(-1e-4, 1e-4),
+                    2 => *rng.pick(&[90.0, -90.0, 0.0, 87.0, -87.0, 89.999999, -89.999999]),
+                    3 => rng.uni(86.5, 90.0) * if rng.chance(0.5) { 1.0 } else { -1.0 },
+                    4 => rng.uni(-0.001, 0.001),
+                    _ => rng.uni(-90.0, 90.0),
+                };
+                let lon = match rng.below(6) {
+                    0 => 0.0,
+                    1 => -180.0,
+                    2 => 180.0 - rng.uni(0.0, 1e-3),
+                    3 => rng.uni(-1e-3, 1e-3),
+                    4 => -180.0 + rng.uni(0.0, 1e-3),
+                    _ => rng.uni(-180.0, 180.0),
+                };
+                one(&mut c, lat.clamp(-90.0, 90.0), lon, "edges(zone/pole/equator/meridians)");
+            }
+        }
+        if i < 3 {
+            let (la, lo) = (rng.uni(-90.0, 90.0), rng.uni(-180.0, 180.0));
+            let e = cpr::encode(la, lo, 0, false);
+            let o = cpr::encode(la, lo, 1, false);
+            c.r.sample(json!({"truth": [la, lo], "even_cpr": [e.yz, e.xz], "odd_cpr": [o.yz, o.xz]}));
+            one(&mut c, la, lo, "lat-uniform");
+        }
+    }
+    // every transition, every shard: a deterministic fine sweep so that all NL bands are always observed
+    for (k, t) in tr.iter().enumerate() {
+        if (k as u64) % a.nshards != a.shard {
+            continue;
+        }
+        for s in [1.0, -1.0] {
+            for j in -200..=200 {
+                one(&mut c, (s * (t + j as f64 * 2.5e-5)).clamp(-90.0, 90.0), rng.uni(-180.0, 180.0), "nl-transition-fine-sweep");
+            }
+        }
+    }
+    for h in 0..2 {
+        for n in 1..60 {
+            if c.nl_seen[h][n] > 0 {
+                let name = format!("nl:{}:{}", if h == 0 { "N" } else { "S" }, n);
+                let cnt = c.nl_seen[h][n];
+                c.r.class_n(&name, cnt);
+            }
+        }
+    }
+    let (some, nj, es, me) = (c.some, c.none_justified, c.edge_skipped, c.max_err);
+    c.r.class_n("result:some", some);
+    c.r.class_n("result:none(justified by differing NL bands)", nj);
+    c.r.class_n("result:band_edge_skipped", es);
+    c.r.max("error_m", me);
+    let mand: Vec<String> = (1..60).flat_map(|n| vec![format!("nl:N:{n}"), format!("nl:S:{n}")]).collect();
+    c.r.extra.insert("mandatory".into(), json!(mand));
 }
